@@ -98,7 +98,7 @@ def _gen_case(rng, tier):
         "w2": gen_wl(rng),
         "seeds": [1, 2, rng.randrange(3, 4_000_000)],
         "buf": rng.choice([1, 2, 7, 61, 1000, 4096]),
-        "dims": sorted(rng.sample(["hash", "hash", "cwd", "buffer", "warm", "stale", "history", "format", "asmformat"], rng.choice([3, 4, 5]))),
+        "dims": sorted(rng.sample(["hash", "hash", "cwd", "buffer", "warm", "stale", "history", "format", "asmformat", "stdoutmode"], rng.choice([3, 4, 5]))),
         "hist_seed": rng.getrandbits(32),
     }
 
@@ -311,6 +311,23 @@ class Ctx:
             if not self.compare("hash_seed", ref, got, f"PYTHONHASHSEED={seed} in a fresh interpreter vs PYTHONHASHSEED={os.environ.get('PYTHONHASHSEED')} in-process"):
                 return
         self.classify("hash_seed", key, ref)
+
+    def dim_stdoutmode(self, ref):
+        """Without --output the assemblies are printed to STDOUT (STR format):
+        that text is the output, under every hash seed and after other work."""
+        key = "w1"
+        ind = self.stage(key)[0]
+        outd = self.new_out()
+        args = self.p2a_args(key, outd, mode="stdout")
+        r, _ = self.run_inproc(self.p2a.cli, args, "pretext-to-asm")
+        base = Outcome(r.code, {"<STDOUT>": r.stdout.replace(ind, "<IN>").encode()}, r.stderr)
+        for seed in sorted(set(self.case["seeds"] + [3])):
+            p = self.run_subprocess("pretext_to_asm", args, seed)
+            got = Outcome(p.returncode, {"<STDOUT>": p.stdout.replace(ind, "<IN>").encode()}, p.stderr)
+            if not self.compare("stdout_mode", base, got, f"STDOUT of pretext-to-asm without --output: in-process vs fresh interpreter PYTHONHASHSEED={seed}"):
+                return
+        if base.code == 0:
+            self.classes.add(f"stdout_mode wl={self.case[key]['kind']}")
 
     def dim_cwd(self, ref):
         d = self.stage("w1")[0]
@@ -540,7 +557,12 @@ class Ctx:
         d, asm, prt = self.stage(key)
         src = prt if wl["kind"] == "fasta" else asm
         outd = self.new_out()
-        args = [src, "-o", os.path.join(outd, f"y.{fmt}")]
+        if fmt in ("STR", "REPR"):
+            args = [src, "-o", os.path.join(outd, "y.txt"), "-f", fmt, "-n", "named"]
+        elif fmt == "stdout":
+            args = [src, "-f", "TPF"]
+        else:
+            args = [src, "-o", os.path.join(outd, f"y.{fmt}")]
         if subprocess_seed is not None:
             p = self.run_subprocess("asm_format", args, subprocess_seed)
             oc = Outcome(p.returncode, self.collect(outd, d), p.stderr)
@@ -582,7 +604,7 @@ class Ctx:
             got = self.run_asmformat_multi(fmt, subprocess_seed=seed)
             if not self.compare("asm_format", base, got, f"asm-format of four input files -> one {fmt}: in-process vs fresh interpreter PYTHONHASHSEED={seed}"):
                 return
-        for fmt in ("tpf", "agp"):
+        for fmt in ("tpf", "agp", "STR", "REPR", "stdout"):
             a = self.run_asmformat("w1", fmt)
             b = self.run_asmformat("w1", fmt, subprocess_seed=self.case["seeds"][-1])
             if not self.compare("asm_format", a, b, f"asm-format -> {fmt}: in-process vs fresh interpreter PYTHONHASHSEED={self.case['seeds'][-1]}"):
